@@ -2,6 +2,7 @@ package checks
 
 import (
 	"fmt"
+	"github.com/jsightapi/jsight-api-go-library/catalog"
 	"strings"
 
 	"verifharness/internal/fw"
@@ -54,7 +55,7 @@ func freshDecls() []freshDecl {
 			Responses: []*gen.Response{{Code: "200", Body: gen.Body{Form: "any"}}}}},
 			map[string][]string{"interactions": {"http GET /freshshape/{fp}/{fq}"}, "tags": {"@freshshape"}}},
 		{"url-block", &gen.Block{Kind: "url", Path: "/freshurl/{fid}", Methods: []*gen.Method{{Verb: "POST", Path: "/freshurl/{fid}",
-			Request: &gen.Request{Body: gen.Body{Form: "schema", Schema: &gen.SNode{Kind: "object", Props: []*gen.SProp{{Key: "x", Node: &gen.SNode{Kind: "int", Val: "1"}}}}}},
+			Request:   &gen.Request{Body: gen.Body{Form: "schema", Schema: &gen.SNode{Kind: "object", Props: []*gen.SProp{{Key: "x", Node: &gen.SNode{Kind: "int", Val: "1"}}}}}},
 			Responses: []*gen.Response{{Code: "201", Body: gen.Body{Form: "empty"}}}}}},
 			map[string][]string{"interactions": {"http POST /freshurl/{fid}"}, "tags": {"@freshurl"}}},
 	}
@@ -132,7 +133,28 @@ func c20Eval(t *fw.T, c *fw.Case) {
 	if n > 6 && !t.Thorough() {
 		positions = []int{0, r.Intn(n + 1), r.Intn(n + 1), n}
 	}
-	for _, fd := range freshDecls() {
+	decls := freshDecls()
+	// fresh methods whose paths look like existing ones without being related: the first segment has an existing one
+	// as a proper prefix; the path reaches an existing segment through '..' (an ordinary segment in this language)
+	seg := ""
+	for _, b := range m.Blocks {
+		p := b.Path
+		if b.Kind == "method" && b.Method != nil {
+			p = b.Method.Path
+		}
+		if fs := firstSegment(p); fs != "" && !strings.ContainsAny(fs, "{}") && seg == "" {
+			seg = fs
+		}
+	}
+	if seg != "" {
+		mk := func(kind, path string) freshDecl {
+			return freshDecl{kind, &gen.Block{Kind: "method", Method: &gen.Method{Verb: "PUT", Path: path, OwnPath: true, Annotation: "fresh",
+				Responses: []*gen.Response{{Code: "200", Body: gen.Body{Form: "any"}}}}},
+				map[string][]string{"interactions": {"http PUT " + path}, "tags": {catalog.VerifTagName(catalog.VerifPathTagTitle(path))}}}
+		}
+		decls = append(decls, mk("method-segment-extends-existing", "/"+seg+"zzfresh/x"), mk("method-dotdot-to-existing", "/zzfreshdots/../"+seg+"/zzfreshleaf"))
+	}
+	for _, fd := range decls {
 		for _, pos := range positions {
 			pm := &gen.Model{}
 			pm.Blocks = append(pm.Blocks, m.Blocks[:pos]...)
